@@ -141,9 +141,13 @@ def jdec(o):
 class Out:
     """Outcome of checking one case."""
 
-    __slots__ = ("viol", "classes", "nontrivial", "dig", "sample")
+    __slots__ = ("viol", "classes", "nontrivial", "dig", "sample", "n", "nt", "counts")
 
-    def __init__(self, viol=None, classes=(), nontrivial=False, dig=None, sample=None):
+    def __init__(self, viol=None, classes=(), nontrivial=False, dig=None, sample=None, n=1, nt=None,
+                 counts=None):
+        self.n = n  # evaluations this case stands for (enumerations inside a case)
+        self.nt = nt  # distinct non-trivial sub-cases enumerated inside this case
+        self.counts = counts  # {class: count} for sub-cases
         self.viol = viol or []  # list of (key, detail)
         self.classes = classes
         self.nontrivial = nontrivial
@@ -168,10 +172,19 @@ class Acc:
         self.extra = {}
 
     def record(self, out: Out):
-        self.evaluations += 1
+        self.evaluations += out.n
         for c in out.classes:
             self.classes[c] += 1
-        if out.nontrivial:
+        if out.counts:
+            self.classes.update(out.counts)
+        if out.nt is not None:
+            # sub-cases are distinct by construction within one case; count them
+            # only the first time this case (by digest) is seen
+            if out.dig is None or out.dig not in self.nontrivial:
+                self.nontrivial_extra += out.nt
+            if out.dig is not None:
+                self.nontrivial.add(out.dig)
+        elif out.nontrivial:
             if out.dig is None:
                 self.nontrivial_extra += 1
             else:
